@@ -49,6 +49,9 @@ func RandomProgram(seed uint64, o RandomOpts) *Program {
 	p := &Program{File: "p.proto", Package: "p"}
 	p.Enums = []Enum{{Name: "Mode", Values: []string{"MODE_UNKNOWN", "MODE_ON", "MODE_OFF"}}}
 	if r.p(1, 2) {
+		p.Enums = append(p.Enums, Enum{Name: "Power", Values: []string{"OFF", "ON", "STANDBY"}})
+	}
+	if r.p(1, 2) {
 		p.Enums = append(p.Enums, Enum{Name: "Color", Values: []string{"COLOR_NONE", "COLOR_RED", "COLOR_BLUE", "COLOR_GREEN"}})
 	}
 	nameN := 0
